@@ -853,6 +853,11 @@ func (ctx Ctx) structSelector(info structTypeInfo, e *ast.SelectorExpr) coq.Stru
 func (ctx Ctx) compositeLiteral(e *ast.CompositeLit) coq.Expr {
 	if _, ok := ctx.typeOf(e).Underlying().(*types.Slice); ok {
 		if len(e.Elts) == 0 {
+			if e.Type == nil {
+				// a literal nested in another one ([][]T{{}}) has no type expression
+				ctx.unsupported(e, "slice literal with elided type")
+				return nil
+			}
 			elemTy := ctx.coqType(e.Type).(coq.SliceType).Value
 			zeroLit := coq.IntLiteral{Value: 0}
 			return coq.NewCallExpr(coq.GallinaIdent("NewSlice"), elemTy, zeroLit)
